@@ -135,6 +135,13 @@ def generate(seed, prop):
         files.append(dict(files[j], stem="SITE_%s" % rng.choice(["A", "B7"]), link_to=j))
         if rng.random() < 0.4:
             files.append(dict(files[j], stem="alias.of.%d" % j, link_to=j))
+    flat = rng.random() < 0.08 and not many_windows
+    if flat:
+        # sites without a resonance (rock): white spectra, and a coarse frequency grid - the mean curve often has no peak,
+        # which the figure step cannot draw
+        for f_ in files:
+            f_["flat"] = True
+        proc["fcs"] = [float(x) for x in np.geomspace(0.5, 20.0, rng.choice([3, 4, 4, 5]))]
     n_files = len(files)
     order = list(range(n_files))
     rng.shuffle(order)
@@ -143,7 +150,7 @@ def generate(seed, prop):
     nproc = rng.choice([None, 1, 2, 2, 3, 4, 6])
     argv = {"order": order, "nproc": nproc, "cpus": rng.choice([1, 2, 3, 4, 8]),
             "dfn": rng.choice(["lognormal", "normal"]), "dmc": rng.choice(["lognormal", "normal"]),
-            "no_figure": rng.random() < 0.92 and not many_windows, "no_file": rng.random() < 0.04 and not many_windows}
+            "no_figure": rng.random() < 0.92 and not many_windows and not flat, "no_file": rng.random() < 0.04 and not many_windows}
     sched = {"mode": rng.choice(["random", "random", "random", "fifo"]), "seed": rng.randrange(1 << 30),
              "stall_rate": rng.choice([0.0, 0.1, 0.3])}
     return {"machine": "cli", "property": prop, "run_seed": int(seed),
@@ -169,7 +176,7 @@ def write_inputs(d, world):
             trs = []
             comps = {}
             for j, ch in enumerate(["BHN", "BHE", "BHZ"]):
-                x = g.normal(0, 1000, n) + (3000.0 if j < 2 else 800.0) * np.sin(2 * np.pi * (1.7 + 0.2 * j) * t)
+                x = g.normal(0, 1000, n) + (0.0 if f.get("flat") else 1.0) * (3000.0 if j < 2 else 800.0) * np.sin(2 * np.pi * (1.7 + 0.2 * j) * t)
                 comps["NEZ"[j]] = np.round(x).astype(np.int32)
                 tr = Trace(data=np.round(x).astype(np.int32))
                 if f.get("scale"):
@@ -264,6 +271,23 @@ def _reference_one(H, ref_dir, paths, pp, qp, argv):
     _, status = os.waitpid(pid, 0)
     if status != 0:
         raise HarnessError("reference child failed")
+
+
+def _task_status(pool, stems, s):
+    """'ok' / 'raised' / 'not_run' for the task of file s (None when the pool's chunk structure does not map onto files)."""
+    out = getattr(pool, "last_outcome", None)
+    if out is None or sum(pool.chunks) != len(stems):
+        return None
+    pos, acc = stems.index(s), 0
+    for ci, n in enumerate(pool.chunks):
+        if pos < acc + n:
+            seq = out[ci] if not isinstance(out, dict) else out.get(ci, [])
+            if pos - acc >= len(seq):
+                return None
+            ok, msg = seq[pos - acc]
+            return "ok" if ok else ("not_run" if str(msg).startswith("not run") else "raised")
+        acc += n
+    return None
 
 
 def split_file(data):
@@ -413,10 +437,21 @@ def execute(triple, prop):
                 ctx.probe("pipeline_raises_for_file")
                 continue
             if not argv["no_figure"] and pool is not None and pool.errors and not os.path.exists(p):
-                # the figure step (not part of the property) raised for some file of the batch and
-                # aborted the task before the CSV was written: behaviour on task failure is outside C19
-                ctx.probe("figure_step_raised_before_csv")
-                continue
+                # the figure step raised for some file of the batch.  Files that come AFTER the failing one in its chunk are
+                # never started (behaviour on task failure is outside C19); the file whose own figure could not be drawn still
+                # has a result - read, preprocess, process and write succeed for it alone - and the property asks for it
+                status = _task_status(pool, stems, s)
+                if status != "raised":
+                    ctx.probe("output_missing_after_a_failing_figure")
+                    continue
+                ctx.probe("figure_step_raised_for_this_file")
+                ctx.check(False, "output_missing",
+                          lambda: f"{s}.csv was not written although the pipeline succeeds for that file: its task raised in the "
+                                  f"figure step, before the result was written (worker errors: {pool.errors})",
+                          key={**key, "figure_raised": True})
+            if not argv["no_figure"] and pool is not None and pool.errors and os.path.exists(p) and \
+                    _task_status(pool, stems, s) == "raised":
+                ctx.probe("result_kept_although_its_figure_failed")
             if expect_fail and pool is not None and pool.errors and not os.path.exists(p):
                 # another file of the batch makes the pipeline raise: the real pool abandons the rest of that file's
                 # chunk (and a CLI that batches files itself the rest of its batch); what happens to the other files
